@@ -16,6 +16,50 @@ const N_SLOTS: usize = 3;
 /// real slot numbers of the three logical slots in the "wide" layout (0, 64 and 129 alias modulo 64 / 128)
 const WIDE: [usize; 3] = [0, 64, 129];
 const WIDE_SLOTS: usize = 130;
+/// layout 2 ("many"): 24 logical slots at real slots 0..24, so that one frame can collect a long undo log
+const MANY_SLOTS: usize = 24;
+
+/// number of logical slots of a layout (0 = narrow, 1 = wide, 2 = many)
+fn nlog(lay: u8) -> usize {
+    if lay == 2 {
+        MANY_SLOTS
+    } else {
+        N_SLOTS
+    }
+}
+fn nreal(lay: u8) -> usize {
+    match lay {
+        1 => WIDE_SLOTS,
+        2 => MANY_SLOTS,
+        _ => N_SLOTS,
+    }
+}
+fn rslot(lay: u8, s: usize) -> usize {
+    if lay == 1 {
+        WIDE[s]
+    } else {
+        s
+    }
+}
+fn suffix(lay: u8) -> &'static str {
+    match lay {
+        1 => "#wide",
+        2 => "#many",
+        _ => "",
+    }
+}
+fn lay_of_kind(kind: &str) -> u8 {
+    if kind.ends_with("#wide") {
+        1
+    } else if kind.ends_with("#many") {
+        2
+    } else {
+        0
+    }
+}
+fn strip_kind(kind: &str) -> &str {
+    kind.trim_end_matches("#wide").trim_end_matches("#many")
+}
 
 #[derive(Clone, Copy, Debug, PartialEq, Eq)]
 pub enum Op {
@@ -100,9 +144,9 @@ pub enum Run {
     Fail(usize, Fail),
 }
 
-fn read_real(real: &VmState, wide: bool) -> (Vec<usize>, usize, Vec<usize>) {
-    let nreal = if wide { WIDE_SLOTS } else { N_SLOTS };
-    let slots: Vec<usize> = (0..N_SLOTS).map(|i| real.get(if wide { WIDE[i] } else { i })).collect();
+fn read_real(real: &VmState, lay: u8) -> (Vec<usize>, usize, Vec<usize>) {
+    let nreal = nreal(lay);
+    let slots: Vec<usize> = (0..nlog(lay)).map(|i| real.get(rslot(lay, i))).collect();
     let n = real.n_slots();
     let aux: Vec<usize> = if n > nreal {
         let sp = real.get(nreal);
@@ -113,8 +157,8 @@ fn read_real(real: &VmState, wide: bool) -> (Vec<usize>, usize, Vec<usize>) {
     (slots, real.backtrack_count(), aux)
 }
 
-fn compare(step: usize, what: &str, real: &VmState, m: &Model, wide: bool) -> Option<Fail> {
-    let (slots, count, aux) = read_real(real, wide);
+fn compare(step: usize, what: &str, real: &VmState, m: &Model, lay: u8) -> Option<Fail> {
+    let (slots, count, aux) = read_real(real, lay);
     let maux: Vec<usize> = m.cur.aux.iter().map(|(v, _)| *v).collect();
     if slots != m.cur.slots || count != m.branches.len() || aux != maux {
         return Some(Fail::new(
@@ -131,21 +175,22 @@ fn show(v: &[usize]) -> Vec<String> {
 }
 
 pub fn execute(ops: &[Op], unwind: bool) -> Run {
-    execute_layout(ops, unwind, false)
+    execute_layout(ops, unwind, 0)
 }
 
 /// `wide`: the three logical slots live at real slots 0, 64 and 129 of a 130-slot state
-pub fn execute_layout(ops: &[Op], unwind: bool, wide: bool) -> Run {
-    let r = catch_unwind(AssertUnwindSafe(|| execute_inner(ops, unwind, wide)));
+pub fn execute_layout(ops: &[Op], unwind: bool, lay: u8) -> Run {
+    let r = catch_unwind(AssertUnwindSafe(|| execute_inner(ops, unwind, lay)));
     match r {
         Ok(r) => r,
         Err(e) => Run::Fail(ops.len(), Fail::new("panic", "no panic under the VM's own preconditions", format!("PANIC({})", engine::panic_msg(e)))),
     }
 }
 
-fn execute_inner(ops: &[Op], unwind: bool, wide: bool) -> Run {
-    let mut real = VmState::new(if wide { WIDE_SLOTS } else { N_SLOTS }, 1_000_000);
-    let mut m = Model { cur: MState { slots: vec![usize::MAX; N_SLOTS], aux: vec![] }, branches: vec![], written: vec![vec![false; N_SLOTS]], interesting_pending: false };
+fn execute_inner(ops: &[Op], unwind: bool, lay: u8) -> Run {
+    let n_slots = nlog(lay);
+    let mut real = VmState::new(nreal(lay), 1_000_000);
+    let mut m = Model { cur: MState { slots: vec![usize::MAX; n_slots], aux: vec![] }, branches: vec![], written: vec![vec![false; n_slots]], interesting_pending: false };
     let mut nontrivial = false;
     let mut commits = 0;
     let mut cut_branches = 0;
@@ -155,7 +200,7 @@ fn execute_inner(ops: &[Op], unwind: bool, wide: bool) -> Run {
             Op::Push => {
                 pc_counter += 1;
                 m.branches.push((pc_counter, pc_counter * 3, m.cur.clone()));
-                m.written.push(vec![false; N_SLOTS]);
+                m.written.push(vec![false; n_slots]);
                 if real.push(pc_counter, pc_counter * 3).is_err() {
                     return Run::Fail(i, Fail::new("push-error", "Ok", "Err"));
                 }
@@ -174,9 +219,12 @@ fn execute_inner(ops: &[Op], unwind: bool, wide: bool) -> Run {
                 }
             }
             Op::Save(s, v) => {
+                if s >= n_slots {
+                    return Run::Invalid(i);
+                }
                 m.cur.slots[s] = v;
                 m.written.last_mut().unwrap()[s] = true;
-                real.save(if wide { WIDE[s] } else { s }, v);
+                real.save(rslot(lay, s), v);
             }
             Op::Enter => {
                 m.cur.aux.push((m.branches.len(), true));
@@ -192,7 +240,7 @@ fn execute_inner(ops: &[Op], unwind: bool, wide: bool) -> Run {
                 if discarded >= 2 {
                     // writes to the same slot on >= 2 discarded levels?
                     let levels = &m.written[c + 1..];
-                    for s in 0..N_SLOTS {
+                    for s in 0..n_slots {
                         if levels.iter().filter(|w| w[s]).count() >= 2 {
                             m.interesting_pending = true;
                         }
@@ -203,7 +251,7 @@ fn execute_inner(ops: &[Op], unwind: bool, wide: bool) -> Run {
                 // the writes of the discarded levels now belong to the level we cut back to
                 let merged: Vec<Vec<bool>> = m.written.drain(c + 1..).collect();
                 for w in merged {
-                    for s in 0..N_SLOTS {
+                    for s in 0..n_slots {
                         if w[s] {
                             m.written[c][s] = true;
                         }
@@ -232,7 +280,7 @@ fn execute_inner(ops: &[Op], unwind: bool, wide: bool) -> Run {
                 }
             }
         }
-        if let Some(f) = compare(i, &format!("{:?}", op), &real, &m, wide) {
+        if let Some(f) = compare(i, &format!("{:?}", op), &real, &m, lay) {
             return Run::Fail(i, f);
         }
     }
@@ -246,7 +294,7 @@ fn execute_inner(ops: &[Op], unwind: bool, wide: bool) -> Run {
             if got != (pc, ix) {
                 return Run::Fail(ops.len() + k, Fail::new("pop-result", format!("{:?}", (pc, ix)), format!("{:?} (final unwind)", got)));
             }
-            if let Some(f) = compare(ops.len() + k, "final unwind pop", &real, &m, wide) {
+            if let Some(f) = compare(ops.len() + k, "final unwind pop", &real, &m, lay) {
                 return Run::Fail(ops.len() + k, f);
             }
             if m.interesting_pending {
@@ -261,11 +309,29 @@ fn execute_inner(ops: &[Op], unwind: bool, wide: bool) -> Run {
 
 /// decode a history from bytes: single operations and bursts (push + writes to several slots)
 fn decode_ops(bytes: &[u8]) -> Vec<Op> {
+    decode_ops_for(bytes, 0)
+}
+
+fn decode_ops_for(bytes: &[u8], lay: u8) -> Vec<Op> {
     let mut d = Dec::new(bytes);
     let mut ops = vec![];
-    while !d.exhausted() && ops.len() < 160 {
-        let k = d.below(20);
+    let n = nlog(lay);
+    while !d.exhausted() && ops.len() < 200 {
+        let k = d.below(if n > 3 { 23 } else { 20 });
         match k {
+            0..=15 if n > 3 && matches!(OPS[k], Op::Save(..)) => ops.push(Op::Save(d.below(n), d.below(3))),
+            20..=22 => {
+                // one frame with a long undo log: writes to many different slots, then the first one again
+                let start = d.below(n);
+                let len = 8 + d.below(n - 8 + 1);
+                for j in 0..len {
+                    ops.push(Op::Save((start + j) % n, 1 + (j % 2)));
+                }
+                ops.push(Op::Save(start, 0));
+                if d.below(2) == 0 {
+                    ops.push(Op::Save((start + 1) % n, 0));
+                }
+            }
             0..=15 => ops.push(OPS[k]),
             16 | 17 => {
                 // burst: n x (push, save to 1..3 slots)
@@ -274,7 +340,7 @@ fn decode_ops(bytes: &[u8]) -> Vec<Op> {
                     ops.push(Op::Push);
                     let w = 1 + d.below(3);
                     for _ in 0..w {
-                        ops.push(Op::Save(d.below(3), d.below(3)));
+                        ops.push(Op::Save(d.below(n), d.below(3)));
                     }
                 }
             }
@@ -336,9 +402,9 @@ fn valid_prefix(ops: &[Op]) -> Vec<Op> {
 }
 
 fn shrink_ops(ops: &[Op], kind: &str) -> Vec<Op> {
-    let wide = kind.ends_with("#wide");
-    let kind = kind.trim_end_matches("#wide");
-    let execute = |o: &[Op], u: bool| execute_layout(o, u, wide);
+    let lay = lay_of_kind(kind);
+    let kind = strip_kind(kind);
+    let execute = |o: &[Op], u: bool| execute_layout(o, u, lay);
     let mut cur = ops.to_vec();
     loop {
         let mut improved = false;
@@ -358,20 +424,20 @@ fn shrink_ops(ops: &[Op], kind: &str) -> Vec<Op> {
 }
 
 fn violation(ops: &[Op], f: Fail) -> Violation {
-    let wide = f.kind.ends_with("#wide");
+    let lay = lay_of_kind(&f.kind);
     let small = shrink_ops(ops, &f.kind);
-    let f2 = match execute_layout(&small, true, wide) {
+    let f2 = match execute_layout(&small, true, lay) {
         Run::Fail(_, f2) => f2,
-        _ => Fail { kind: f.kind.trim_end_matches("#wide").to_string(), ..f },
+        _ => Fail { kind: strip_kind(&f.kind).to_string(), ..f },
     };
-    Violation { case: json!({"ops": small.iter().map(op_json).collect::<Vec<_>>(), "slots": N_SLOTS, "wide": wide}), fail: f2 }
+    Violation { case: json!({"ops": small.iter().map(op_json).collect::<Vec<_>>(), "slots": nlog(lay), "wide": lay == 1, "layout": lay}), fail: f2 }
 }
 
 pub fn run(ctx: &RunCtx) -> Outcome {
     let mut o = Outcome::default();
-    o.rule = "histories over the VM's backtracking state (verif-hooks wrapper): push (create alternative), pop (abandon), save(slot in 0..3, value in 0..3; the three slots are laid out either as 0,1,2 or, in the wide layout, as slots 0, 64 and 129 of a 130-slot state), enter_atomic (= stack_push(backtrack_count())), commit_atomic (= backtrack_cut(stack_pop())), raw stack_push / stack_pop; generated only under the VM's own preconditions (pop needs a branch, commit needs an atomic entry on top of the auxiliary stack, which - being restored on backtrack - was pushed on the current path). Exhaustive up to a length bound, proptest histories with bursts (push + writes, up to ~160 operations) beyond. Oracle: whole-state-copy model; after EVERY step all slots, the branch count, the auxiliary stack contents and, on pop, the returned (pc, ix) are compared; at the end both are unwound completely and compared after every pop. Non-trivial = a commit that discards >= 2 branches with writes to the same slot on >= 2 discarded levels, followed by a pop. Distinct = distinct operation sequences. Program-level companion: captures of atomic / look-around / conditional patterns against the reference matcher (as C02).".into();
+    o.rule = "histories over the VM's backtracking state (verif-hooks wrapper): push (create alternative), pop (abandon), save(slot in 0..3, value in 0..3; the three slots are laid out either as 0,1,2 or, in the wide layout, as slots 0, 64 and 129 of a 130-slot state; a third layout of the random histories has 24 slots and runs of 8..24 writes to different slots within one frame followed by a second write to the first), enter_atomic (= stack_push(backtrack_count())), commit_atomic (= backtrack_cut(stack_pop())), raw stack_push / stack_pop; generated only under the VM's own preconditions (pop needs a branch, commit needs an atomic entry on top of the auxiliary stack, which - being restored on backtrack - was pushed on the current path). Exhaustive up to a length bound, proptest histories with bursts (push + writes, up to ~160 operations) beyond. Oracle: whole-state-copy model; after EVERY step all slots, the branch count, the auxiliary stack contents and, on pop, the returned (pc, ix) are compared; at the end both are unwound completely and compared after every pop. Non-trivial = a commit that discards >= 2 branches with writes to the same slot on >= 2 discarded levels, followed by a pop. Distinct = distinct operation sequences. Program-level companion: captures of atomic / look-around / conditional patterns against the reference matcher (as C02).".into();
     o.assumptions = vec!["the wrapper VmState forwards to the private State unchanged (src/verif_hooks.rs)".into()];
-    o.required_classes = vec!["history:commit-cuts>=2".into(), "history:valid".into()];
+    o.required_classes = vec!["history:commit-cuts>=2".into(), "history:valid".into(), "history:24-slot-layout".into()];
     let maxlen = if ctx.quick() { 6 } else { 7 };
     let found: std::sync::Mutex<Vec<(Vec<Op>, Fail)>> = std::sync::Mutex::new(vec![]);
     // exhaustive
@@ -393,7 +459,7 @@ pub fn run(ctx: &RunCtx) -> Outcome {
                         x /= 16;
                     }
                     if len <= 5 {
-                        if let Run::Fail(_, f) = execute_layout(&ops, true, true) {
+                        if let Run::Fail(_, f) = execute_layout(&ops, true, 1) {
                             found.lock().unwrap().push((ops.clone(), Fail { kind: format!("{}#wide", f.kind), ..f }));
                             return st;
                         }
@@ -448,9 +514,9 @@ pub fn run(ctx: &RunCtx) -> Outcome {
             let failed = std::cell::Cell::new(false);
             let strat = proptest::collection::vec(proptest::num::u8::ANY, 0..120);
             let res = runner.run(&strat, |bytes| {
-                let ops = valid_prefix(&decode_ops(&bytes));
-                let wide = bytes.first().map_or(false, |b| b % 2 == 1);
-                match execute_layout(&ops, true, wide) {
+                let lay = bytes.first().map_or(0, |b| b % 3);
+                let ops = valid_prefix(&decode_ops_for(&bytes, lay));
+                match execute_layout(&ops, true, lay) {
                     Run::Invalid(_) => Ok(()),
                     Run::Ok { nontrivial, cut_branches, .. } => {
                         if !failed.get() {
@@ -462,6 +528,9 @@ pub fn run(ctx: &RunCtx) -> Outcome {
                             }
                             if cut_branches >= 20 {
                                 g.class("history:commit-cuts>=20");
+                            }
+                            if lay == 2 {
+                                g.class("history:24-slot-layout");
                             }
                             if nontrivial {
                                 g.nontrivial_add(hash64(&bytes), 1);
@@ -480,10 +549,10 @@ pub fn run(ctx: &RunCtx) -> Outcome {
             });
             let found = match res {
                 Err(TestError::Fail(_, bytes)) => {
-                    let ops = valid_prefix(&decode_ops(&bytes));
-                    let wide = bytes.first().map_or(false, |b| b % 2 == 1);
-                    match execute_layout(&ops, true, wide) {
-                        Run::Fail(_, f) => Some((ops, Fail { kind: if wide { format!("{}#wide", f.kind) } else { f.kind }, ..f })),
+                    let lay = bytes.first().map_or(0, |b| b % 3);
+                    let ops = valid_prefix(&decode_ops_for(&bytes, lay));
+                    match execute_layout(&ops, true, lay) {
+                        Run::Fail(_, f) => Some((ops, Fail { kind: format!("{}{}", f.kind, suffix(lay)), ..f })),
                         _ => None,
                     }
                 }
@@ -520,8 +589,8 @@ pub fn replay(ctx: &RunCtx, case: &Value) -> Result<Option<Fail>, String> {
         return replay_pat(ctx, &p, case);
     }
     let ops: Vec<Op> = case.get("ops").and_then(|x| x.as_array()).ok_or("no ops")?.iter().map(op_from).collect::<Option<Vec<_>>>().ok_or("bad op")?;
-    let wide = case.get("wide").and_then(|w| w.as_bool()).unwrap_or(false);
-    Ok(match execute_layout(&ops, true, wide) {
+    let lay = case.get("layout").and_then(|w| w.as_u64()).map(|l| l as u8).unwrap_or(if case.get("wide").and_then(|w| w.as_bool()).unwrap_or(false) { 1 } else { 0 });
+    Ok(match execute_layout(&ops, true, lay) {
         Run::Fail(_, f) => Some(f),
         Run::Invalid(i) => return Err(format!("history violates a precondition at step {}", i)),
         Run::Ok { .. } => None,
@@ -530,11 +599,11 @@ pub fn replay(ctx: &RunCtx, case: &Value) -> Result<Option<Fail>, String> {
 
 /// fuzz entry: bytes -> operation history (same decoder as the proptest tier), byte 0 picks the slot layout
 pub fn fuzz_one(data: &[u8]) -> Option<(Value, Fail)> {
-    let ops = valid_prefix(&decode_ops(data));
-    let wide = data.first().map_or(false, |b| b % 2 == 1);
-    match execute_layout(&ops, true, wide) {
+    let lay = data.first().map_or(0, |b| b % 3);
+    let ops = valid_prefix(&decode_ops_for(data, lay));
+    match execute_layout(&ops, true, lay) {
         Run::Fail(_, f) => {
-            let v = violation(&ops, Fail { kind: if wide { format!("{}#wide", f.kind) } else { f.kind.clone() }, ..f });
+            let v = violation(&ops, Fail { kind: format!("{}{}", f.kind, suffix(lay)), ..f });
             Some((v.case, v.fail))
         }
         _ => None,
